@@ -29,10 +29,19 @@ def fast_scrypt(password, salt):
     return hashlib.sha256(password + salt).digest()
 
 
-def patch(horizon=-1, known=None, interval=None, timespan=None, scrypt=True):
+HALVING = [1_050_000]      # the halving interval in force (documented value unless a run shortens it)
+
+
+def subsidy(h):
+    """the documented schedule, written out here (not the repository's function): 10 coin halved by integer division"""
+    e = h // HALVING[0]
+    return 0 if e >= 64 else (10 * 100_000_000) // (2 ** e)
+
+
+def patch(horizon=-1, known=None, interval=None, timespan=None, scrypt=True, halving=None):
     """install the run-time replacements; returns the driver lines that configure the model alike"""
     for name in ("scrypt", "MAX_KNOWN_HASH_HEIGHT", "KNOWN_HASHES", "BLOCKS_BETWEEN_TARGET_READJUSTMENT",
-                 "DESIRED_TARGET_READJUSTMENT_TIMESPAN"):
+                 "DESIRED_TARGET_READJUSTMENT_TIMESPAN", "SUBSIDY_HALVING_INTERVAL"):
         _ORIG.setdefault(name, getattr(consensus, name))
     lines = []
     if scrypt:
@@ -48,12 +57,17 @@ def patch(horizon=-1, known=None, interval=None, timespan=None, scrypt=True):
     consensus.DESIRED_TARGET_READJUSTMENT_TIMESPAN = timespan or _ORIG["DESIRED_TARGET_READJUSTMENT_TIMESPAN"]
     lines.append("p retargetInterval %d" % consensus.BLOCKS_BETWEEN_TARGET_READJUSTMENT)
     lines.append("p retargetTimespan %d" % consensus.DESIRED_TARGET_READJUSTMENT_TIMESPAN)
+    consensus.SUBSIDY_HALVING_INTERVAL = halving or _ORIG["SUBSIDY_HALVING_INTERVAL"]
+    HALVING[0] = consensus.SUBSIDY_HALVING_INTERVAL
+    lines.append("p halvingInterval %d" % consensus.SUBSIDY_HALVING_INTERVAL)
     return lines
 
 
 def unpatch():
     for k, v in _ORIG.items():
         setattr(consensus, k, v)
+    if "SUBSIDY_HALVING_INTERVAL" in _ORIG:
+        HALVING[0] = _ORIG["SUBSIDY_HALVING_INTERVAL"]
 
 
 class Keys:
@@ -215,12 +229,26 @@ class Tree:
         self.keys = keys
         g = genesis or genesis_block()
         self.cs = CoinState.empty().add_block_no_validation(g)
+        self.own = {g.hash(): self.apply_own({}, g)}    # the harness's own ledger per block (never read from the node)
         self.blocks = [g]                 # arrival order
         self.t0 = t0 or (g.timestamp + 100)
         self.spent_in_branch = {}         # not needed: utxo per block comes from cs
 
+    @staticmethod
+    def apply_own(parent_ledger, b):
+        """independent bookkeeping: the parent's unspent outputs minus what the block's spends use, plus its outputs"""
+        u = dict(parent_ledger)
+        for n, tx in enumerate(b.transactions):
+            if n > 0:
+                for i in tx.inputs:
+                    u.pop(i.output_reference, None)
+            for k, o in enumerate(tx.outputs):
+                u[OutputReference(tx.hash(), k)] = o
+        return u
+
     def utxo(self, h):
-        return self.cs.unspent_transaction_outs_by_hash[h]
+        """unspent outputs at block h according to the harness's own ledger"""
+        return self.own[h]
 
     def spendable(self, h):
         """outputs at block h owned by one of our keys"""
@@ -257,7 +285,7 @@ class Tree:
             txs.append(t)
         return txs
 
-    def extend(self, parent_hash=None, n_tx=None, dt=None, miner=None, txs=None):
+    def extend(self, parent_hash=None, n_tx=None, dt=None, miner=None, txs=None, _retry=False):
         parent_hash = parent_hash or self.cs.current_chain_hash
         parent = self.cs.block_by_hash[parent_hash]
         if txs is None:
@@ -269,42 +297,55 @@ class Tree:
         r_ = self.rng.random()
         n_data = 0 if r_ < 0.35 else self.rng.choice([1, 58, 59, 60, 199, 200]) if r_ < 0.6 else self.rng.randrange(0, 201)
         data = bytes(self.rng.getrandbits(8) for _ in range(n_data))
-        b = mine(self.cs, parent_hash, txs, miner_pk, ts, data=data)
+        try:
+            b = mine(self.cs, parent_hash, txs, miner_pk, ts, data=data)
+        except RuntimeError:
+            raise
+        except Exception as e:
+            if kit.FOCUS is not None and kit.FOCUS not in ("C05", "C12") and txs and not _retry:
+                if len(kit.SIDE) < 20:
+                    kit.SIDE.append((["C12"], {"kind": "block assembly raised on spends valid at the parent: %r" % e}))
+                return self.extend(parent_hash, dt=dt, miner=miner, txs=[], _retry=True)
+            raise kit.OwnBlockRejected({"kind": "the node's own block assembly raised on transactions valid at the parent",
+                                        "error": repr(e)[:300], "parent": parent_hash.hex(),
+                                        "txs": [t.serialize().hex() for t in txs],
+                                        "chain": [x.serialize().hex() for x in self.blocks]})
         try:
             self.cs = self.cs.add_block(b, ts + 10)
         except Exception as e:
+            if kit.FOCUS is not None and kit.FOCUS not in ("C05", "C12") and txs and not _retry:
+                # not this check's predicate: note it and go on with a block that carries the reward only, so that the
+                # monitors of the property being decided still see the rest of the scenario
+                if len(kit.SIDE) < 20:
+                    kit.SIDE.append((["C05", "C12"], {"kind": "own assembly rejected: %r" % e, "block": b.serialize().hex()}))
+                return self.extend(parent_hash, dt=dt, miner=miner, txs=[], _retry=True)
             raise kit.OwnBlockRejected({
                 "kind": "a block produced by the node's own assembly (id below target) is rejected by its own full validation",
                 "error": repr(e)[:300], "block": b.serialize().hex(), "now": ts + 10, "height": b.height,
                 "retarget_interval": consensus.BLOCKS_BETWEEN_TARGET_READJUSTMENT,
                 "chain": [x.serialize().hex() for x in self.blocks]})
+        self.own[b.hash()] = self.apply_own(self.own[parent_hash], b)
         self.blocks.append(b)
         self.audit(b)
         return b
 
     def audit(self, b):
-        """independent bookkeeping of the new block's ledger state: the parent's unspent set with the block applied"""
-        parent = self.cs.unspent_transaction_outs_by_hash[b.previous_block_hash]
-        want = {(r.hash, r.index): (o.value, o.public_key.public_key) for r, o in parent.items()}
-        for n, tx in enumerate(b.transactions):
-            if n > 0:
-                for i in tx.inputs:
-                    want.pop((i.output_reference.hash, i.output_reference.index), None)
-            for k, o in enumerate(tx.outputs):
-                want[(tx.hash(), k)] = (o.value, o.public_key.public_key)
+        """the node's ledger state at the new block against the harness's own ledger"""
+        want = {(r.hash, r.index): (o.value, o.public_key.public_key) for r, o in self.own[b.hash()].items()}
+        parent_total = sum(o.value for o in self.own[b.previous_block_hash].values()) if b.previous_block_hash in self.own else 0
         got = {(r.hash, r.index): (o.value, o.public_key.public_key)
                for r, o in self.cs.unspent_transaction_outs_by_hash[b.hash()].items()}
         if got != want:
-            sub = consensus.get_block_subsidy(b.height)
+            sub = subsidy(b.height)
             info = {"block": b.serialize().hex(), "height": b.height, "chain": [x.serialize().hex() for x in self.blocks],
                     "unspent_total": sum(v for v, _ in got.values()),
-                    "parent_total_plus_subsidy": sum(o.value for o in parent.values()) + sub}
+                    "parent_total_plus_subsidy": parent_total + sub}
             props = ["C03"]
             kind = "the unspent set recorded at a block is not its parent's set with the block applied"
             if info["unspent_total"] > info["parent_total_plus_subsidy"]:
                 props.append("C02")
                 kind += " (and its total exceeds the parent's total plus the subsidy)"
-            raise kit.PropertyViolation(props, {**info, "kind": kind})
+            kit.side_or_raise(props, {**info, "kind": kind})
 
     def grow(self, n, fork_prob=0.3):
         for _ in range(n):
